@@ -25,7 +25,8 @@ Clause(r) ==
        (IF r.st = "KeyError" THEN "known:chart-key-not-representable-in-sm" ELSE "outcome")
   ELSE IF r.dir = "sm2ssc" /\ FreezesFinding(r.src) THEN
        (IF r.st = e.st /\ (e.st # "ok" \/ (r.res.items = e.items /\ r.res.charts = e.charts)) THEN
-             (IF e.st = "ok" /\ ~r.timing THEN "known:freezes-alias-not-converted" ELSE "")
+             (IF r.back.ran /\ (r.back.st # "ok" \/ ~r.back.same) THEN "round-trip-differs"      \* (C17: the way back keeps the alias key)
+              ELSE IF e.st = "ok" /\ ~r.timing THEN "known:freezes-alias-not-converted" ELSE "")
         ELSE "outcome-or-result")
   ELSE IF r.st # e.st THEN (IF r.st \notin {"ok", "InvalidPropertyException", "NotImplementedError"} THEN "failed-in-another-way" ELSE "outcome")
   ELSE IF e.st = "InvalidPropertyException" /\ r.key # e.key THEN "exception-does-not-name-the-first-offending-property"
